@@ -105,6 +105,7 @@ def _inject_instance(ex, st, args, kwargs, fn):
 
 
 # ---------------------------------------------------------------------------------------------- lark (A-LARK-*)
+AWAIT_HOOKS: Dict[str, Any] = {}  # class name -> hook(ex, st, ref) -> outcomes of awaiting an instance
 FOLD_RESULT: Dict[str, Any] = {}   # transformer class -> PSpec of the value a fold can produce (set by side-cars)
 EXTRA_FOLD_RAISES: Dict[str, List[str]] = {}
 
